@@ -167,6 +167,25 @@ func (iBuilder *IndexBuilder) GenerateUUID() uint64 {
 	return pid
 }
 
+// tsidSequenceMask selects the part of the sequence that GenerateUUID puts into a tsid.
+const tsidSequenceMask = 1<<40 - 1
+
+// raiseSequenceID makes sure the next generated tsid has a sequence part above minSeq.
+func (iBuilder *IndexBuilder) raiseSequenceID(minSeq uint64) {
+	if iBuilder.sequenceID == nil {
+		return
+	}
+	for {
+		cur := atomic.LoadUint64(iBuilder.sequenceID)
+		if cur&tsidSequenceMask >= minSeq {
+			return
+		}
+		if atomic.CompareAndSwapUint64(iBuilder.sequenceID, cur, cur&^uint64(tsidSequenceMask)|minSeq) {
+			return
+		}
+	}
+}
+
 func (iBuilder *IndexBuilder) Flush() {
 	if config.IsLogKeeper() {
 		return
